@@ -15,6 +15,15 @@ CHECKS = {
         note='Trusts vf/ref/script.py (validated by vf.setup on the real-chain pairs and by bulk agreement), OpenSSL hashes, and that TAPSCRIPT sessions '
              'carry the execdata configure_tx_txin always sets. The known finding C01-opsuccess is excluded from the BIP342 layer only.',
         design='5/C01'),
+    'C04': dict(
+        technique='model-based stateful property testing (Hypothesis histories + complete history trees) with the tree as its own reference: live session vs fresh session advanced by the net step count',
+        text='For generated sessions (IF nesting, alt stack, OP_CODESEPARATOR before mocked signature checks, ~201 counted ops, scriptSig->scriptPubKey->P2SH phases, real reference-signed '
+             'tapscript and legacy spends) and histories over {step, rewind} - every history up to depth 8/10 for short sessions, random walks up to 60/400 commands otherwise - the complete '
+             'state dump after every command must equal that of a fresh session advanced by net = accepted steps - accepted rewinds, continuing to the end must give the same trace and outcome, '
+             'and a refused rewind must change nothing.',
+        note='Metamorphic: the reference is the same implementation run afresh, so a defect that affects stepping and re-stepping identically is invisible here (C01 covers stepping). '
+             'Histories are cut at the first failing step (outside the stated domain). Two genuine defects were repaired by fix: commits.',
+        design='5/C04'),
     'C07': dict(
         technique='grammar-based property-based testing (Hypothesis) against an executable token->bytes model, plus exhaustive enumeration of all 1- and 2-byte hex literals',
         text='Token sequences drawn from the documented btcc grammar (names with/without OP_, OP_xNN, int64 decimals, hex literals of every length class, brackets to depth 8 with '
